@@ -33,10 +33,20 @@ func c03Shapes() []c03Shape {
 	lit := genData(famHash, 700, 4444)
 	mixed := append(append(append([]byte{}, blk(0)...), lit...), blk(2)...)
 	h3 := rp.SumHead{Count: 3, BLen: 700, S2Len: 16, Rem: 0}
+	sblk := func(i int) []byte { return genData(famHash, 64, uint32(2000+i)) }
+	sbasis := append(append(append([]byte{}, sblk(0)...), sblk(1)...), sblk(2)...)
+	slit := genData(famHash, 64, 5555)
+	smixed := append(append(append([]byte{}, sblk(0)...), slit...), sblk(2)...)
 	return []c03Shape{
 		{"whole-file", nil, whole, []rp.Token{rp.Lit(whole)}, rp.SumHead{Count: 0, BLen: 700, S2Len: 16, Rem: 0}},
 		{"pure-delta", basis, basis, []rp.Token{rp.Ref(0), rp.Ref(1), rp.Ref(2)}, h3},
 		{"mixed", basis, mixed, []rp.Token{rp.Ref(0), rp.Lit(lit), rp.Ref(2)}, h3},
+		// other header echoes a sender may produce: tridge rsync echoes the generator's header verbatim
+		// (all zero for a file without basis); a peer may announce any strong-checksum length
+		{"whole-file/zero-head", nil, whole, []rp.Token{rp.Lit(whole)}, rp.SumHead{}},
+		{"whole-file/s2len-2", nil, whole, []rp.Token{rp.Lit(whole)}, rp.SumHead{Count: 0, BLen: 700, S2Len: 2, Rem: 0}},
+		{"mixed-small/s2len-0", sbasis, smixed, []rp.Token{rp.Ref(0), rp.Lit(slit), rp.Ref(2)}, rp.SumHead{Count: 3, BLen: 64, S2Len: 0, Rem: 0}},
+		{"mixed-small/s2len-15", sbasis, smixed, []rp.Token{rp.Ref(0), rp.Lit(slit), rp.Ref(2)}, rp.SumHead{Count: 3, BLen: 64, S2Len: 15, Rem: 0}},
 	}
 }
 
@@ -278,7 +288,7 @@ func c03BuildTokenFaults(tier string) core.Source {
 // generator sent its checksums and before the receiver reconstructs.
 func c03BuildBasisEdit(tier string) core.Source {
 	drive.Quiet()
-	shapes := c03Shapes()[1:] // shapes with a basis
+	shapes := c03Shapes()[1:3] // the two shapes with a 3x700-byte basis
 	type ed struct {
 		name string
 		f    func(b []byte) []byte
